@@ -106,6 +106,9 @@ func poisonFor(res *types.Tuple) value {
 func (i *interpreter) loadAddr(T types.Type, addr value) value {
 	p, ok := addr.(*value)
 	if !ok {
+		if sa, isSA := addr.(*symAddr); isSA {
+			return i.loadSymAddr(sa)
+		}
 		if _, isP := addr.(poison); isP {
 			if i.initMode {
 				return addr
@@ -126,6 +129,10 @@ func (i *interpreter) loadAddr(T types.Type, addr value) value {
 func (i *interpreter) storeAddr(T types.Type, addr value, v value) {
 	p, ok := addr.(*value)
 	if !ok {
+		if sa, isSA := addr.(*symAddr); isSA {
+			i.storeSymAddr(sa, v)
+			return
+		}
 		if _, isP := addr.(poison); isP && i.initMode {
 			return
 		}
